@@ -2,6 +2,7 @@
 #include "norm.h"
 #include <cmath>
 #include <functional>
+#include <chrono>
 
 namespace irf {
 
@@ -18,6 +19,9 @@ std::string polyStr(const Poly &p, size_t lim) {
   }
   return s.str();
 }
+std::chrono::steady_clock::time_point g_deadline = std::chrono::steady_clock::time_point::max();
+bool g_timedOut = false;
+static inline bool pastDeadline() { static long ctr = 0; if ((++ctr & 1023) == 0 && std::chrono::steady_clock::now() > g_deadline) g_timedOut = true; return g_timedOut; }
 static Mono mmul(const Mono &a, const Mono &b) {
   Mono r; size_t i = 0, j = 0;
   while (i < a.size() || j < b.size()) {
@@ -32,7 +36,7 @@ static void padd(Poly &r, const Poly &b, long long sb) {
 }
 static Poly pmul(const Poly &a, const Poly &b) {
   Poly r;
-  for (auto &x : a) for (auto &y : b) { Mono m = mmul(x.first, y.first); Q c = x.second * y.second; auto it = r.find(m); if (it == r.end()) r[m] = c; else { it->second = it->second + c; if (it->second.zero()) r.erase(it); } }
+  for (auto &x : a) { if (pastDeadline()) return r; for (auto &y : b) { Mono m = mmul(x.first, y.first); Q c = x.second * y.second; auto it = r.find(m); if (it == r.end()) r[m] = c; else { it->second = it->second + c; if (it->second.zero()) r.erase(it); } } }
   return r;
 }
 static Poly pconst(Q c) { Poly p; if (!c.zero()) p[Mono()] = c; return p; }
@@ -66,6 +70,7 @@ Poly Normaliser::norm(int t, bool fp) {
   auto it = memo.find(key);
   if (it != memo.end()) return it->second;
   if (capped) return Poly();
+  if (pastDeadline()) { capped = true; return Poly(); }
   const Term x = TT.t[t]; Poly r; const std::string op = OPS.name(x.op);
   auto A = [&](int i) { return norm(x.a[i], fp); };
   if (x.op == TT.OP_SYM) r[Mono{{t, 1}}] = Q(1);
@@ -126,7 +131,7 @@ Poly Normaliser::norm(int t, bool fp) {
   else r = atom(t);
   for (auto &kv : r) { __int128 lim = (__int128)1 << 100; if (kv.second.n > lim || kv.second.n < -lim || kv.second.d > lim) overflow = true; }
   maxsize = std::max(maxsize, r.size());
-  if (r.size() > cap) capped = true;
+  if (r.size() > cap || g_timedOut) capped = true;
   memo[key] = r;
   return r;
 }
